@@ -34,6 +34,10 @@ def cfg_strategy(draw, kinds=None, max_side=12):
         L = dwtu.flen(w)
         cfg['wave'] = w
         dim = 1 if kind.startswith('dwt1') else 2
+        if kind in ('dwt2_fwd', 'dwt2_inv', 'swt') and draw(st.integers(0, 3)) == 0:
+            pick = draw(dwtu.wavelet_strategy(max_len=12))
+            if pick != w:
+                cfg['wave_row'] = pick          # separate column / row filters (4-tuple form)
         if kind == 'swt':
             J = draw(st.integers(1, 3))
             P = 2 ** J
@@ -48,12 +52,13 @@ def cfg_strategy(draw, kinds=None, max_side=12):
             J = 1
         cap = 40 if dim == 1 else max_side
         size = [draw(dwtu.size_strategy(L, J, cap=cap)) for _ in range(dim)]
+        Lmax = max(L, dwtu.flen(cfg['wave_row'])) if cfg.get('wave_row') else L
         if mode == 'reflect':
-            size = [max(n, L + 1) for n in size]
-            J = max(1, _safe_reflect(size, L, J))
+            size = [max(n, Lmax + 1) for n in size]
+            J = max(1, _safe_reflect(size, Lmax, J))
         if mode == 'periodization':
             # stay out of the short-signal domain where sfb2d_nonsep raises (known finding)
-            size = [max(n, dwtu.even_up(L) * 2 ** (J - 1)) for n in size]
+            size = [max(n, dwtu.even_up(Lmax) * 2 ** (J - 1)) for n in size]
         cfg.update(mode=mode, J=J, size=size)
         return cfg
     if kind.startswith('dtcwt'):
@@ -118,7 +123,7 @@ def build(cfg, dtype=torch.float64):
             m = pw.DWTInverse(wave=_wave(cfg, True), mode=cfg['mode'])
             return m, lambda ins: [m((ins[0], list(ins[1:])))]
         if k == 'swt':
-            m = SWTForward(J=cfg['J'], wave=cfg['wave'], mode=cfg['mode'])
+            m = SWTForward(J=cfg['J'], wave=_wave(cfg, False), mode=cfg['mode'])
             return m, lambda ins: list(m(ins[0]))
         if k == 'dtcwt_fwd':
             m = pw.DTCWTForward(biort=cfg['biort'], qshift=cfg['qshift'], J=cfg['J'], o_dim=cfg['o_dim'],
